@@ -38,7 +38,7 @@ def gen_c01(seed, tier):
             sc.ks_crypt(True, kind, 0, pt)
             sc.ks_crypt(False, kind, 0, ct)
             # (a) reduced rounds: every cell value in every cell position
-            nkeys = 2 if thorough else 1
+            nkeys = 4 if thorough else 1
             for kk in range(nkeys):
                 sc.reset("c01-rr-%s-%d-%d" % (kind, z, kk))
                 sc.ks_set_key(kind, 0, sc.rb(z * bs))
@@ -71,7 +71,7 @@ def gen_c01(seed, tier):
                 sc.ks_set_key(kind, 0, bytes([pat]) * (z * bs))
                 sc.ks_crypt(True, kind, 0, bytes([pat ^ 0xFF]) * bs)
                 sc.ks_crypt(False, kind, 0, bytes([pat]) * bs)
-            nrand = 40 if thorough else 6
+            nrand = 300 if thorough else 6
             sc.reset("c01-rand-%s-%d" % (kind, z))
             for i in range(nrand):
                 if i % 4 == 0:
@@ -190,7 +190,7 @@ def gen_c02(seed, tier):
         sc.mk_set_tweak(0, None)
         sc.mk_crypt(0, sc.rb(8))
     sc.reset("c02-rand")
-    for i in range(200 if thorough else 24):
+    for i in range(1500 if thorough else 24):
         r = 5 + sc.rng.randrange(4)
         mode = sc.rng.randrange(2)
         o = sc.rng.randrange(8)
@@ -305,7 +305,7 @@ def gen_ctr(seed, tier, cap_for, c06=False):
                 stream(sc, kind, 0, (9 * bs + 1) if not thorough else (17 * bs + 5))
             sc.ctr_cleanup(kind, 0)
         # 3. random mixed streams
-        for i in range(6 if thorough else 2):
+        for i in range(14 if thorough else 2):
             sc.reset("ctr-rand-%s-%d" % (kind, i))
             o = sc.rng.randrange(8)
             sc.ctr_init(kind, o, cap=cap)
@@ -318,7 +318,7 @@ def gen_ctr(seed, tier, cap_for, c06=False):
             sc.ctr_cleanup(kind, o)
         if c06:
             # 4. key / tweak / counter changes and invalid calls in the middle of a stream
-            for i in range(8 if thorough else 3):
+            for i in range(20 if thorough else 3):
                 sc.reset("ctr-mid-%s-%d" % (kind, i))
                 sc.ctr_init(kind, 0, cap=cap)
                 keying = sc.rng.choice(keyings)
@@ -368,7 +368,7 @@ def gen_ctr(seed, tier, cap_for, c06=False):
             # 4c. unconstrained API fuzz: ANY public CTR function with valid or invalid arguments in ANY
             #     order (plain key then tweak change, re-keying in the other family, tweak on an unkeyed
             #     object ...): the contract models all of it, so every back end must agree with it
-            for i in range(6 if thorough else 2):
+            for i in range(16 if thorough else 2):
                 sc.reset("ctr-fuzz-%s-%d" % (kind, i))
                 sc.ctr_init(kind, 0, cap=cap)
                 tl = 8 if kind == "mantis" else bs
@@ -411,7 +411,19 @@ def gen_ctr(seed, tier, cap_for, c06=False):
     return sc
 
 
+_TIER = ["quick"]
+
+
+def deep(cfg):
+    """thorough tier: use the deeper configuration of a design model if there is one"""
+    if _TIER[0] == "thorough" and os.path.exists(os.path.join(SPEC, cfg + "_deep.cfg")):
+        return cfg + "_deep"
+    return cfg
+
+
 def run_mc(work, out, module, cfg, expect_fail=False, must_cover=(), **kw):
+    if not expect_fail:
+        cfg = deep(cfg)
     r = model_check(work, module, cfg, **kw)
     rec, ok = mc_record(out, cfg, r, expect_fail=expect_fail, must_cover=must_cover)
     return r, ok
@@ -548,7 +560,7 @@ def gen_c04(seed, tier, cap_for=lambda k: 2):
             sc.ks_set_tweak(kind, "null", sc.rb(bs))
             sc.ks_crypt(True, kind, 0, blk, t=1)
             # random histories
-            for h in range(6 if thorough else 2):
+            for h in range(20 if thorough else 2):
                 sc.reset("c04-hist-%s-%d-%d" % (kind, z, h))
                 o = sc.rng.randrange(8)
                 sc.ks_set_tweaked_key(kind, o, sc.rb(z * bs))
@@ -620,7 +632,7 @@ def gen_c03(seed, tier, cap_for=lambda k: 2):
     sc = Sc(seed)
     thorough = tier == "thorough"
     # Mantis mode machine on key schedules and on the parallel object
-    for i in range(10 if thorough else 4):
+    for i in range(40 if thorough else 4):
         sc.reset("c03-mode-%d" % i)
         o = sc.rng.randrange(8)
         sc.mk_set_key(o, sc.rb(16), 5 + sc.rng.randrange(4), sc.rng.randrange(2))
@@ -1108,7 +1120,7 @@ def gen_c15(seed, tier, cap_for=lambda k: 2):
     cleanup / use after cleanup / re-init over several objects of mixed kinds"""
     sc = Sc(seed)
     thorough = tier == "thorough"
-    for i in range(24 if thorough else 8):
+    for i in range(60 if thorough else 8):
         sc.reset("c15-rand-%d" % i)
         life = {}
         objs = [(fam, kind, o) for fam in ("ctr", "par") for kind in ("s128", "s64", "mantis") for o in (0, 1)]
